@@ -113,8 +113,28 @@ class OpId(Ext):
         self.fn = fn
 
 
+# Which CasADi operations the structural zero-Hessian test judges correctly.  An expression over AFFINE_SAFE and SMOOTH operations whose
+# Hessian is structurally zero is affine (mathematics: a smooth elementary operation that is not affine has a second derivative
+# CasADi does not drop).  Every OTHER operation (|x|, min, max, if_else_zero, sign, floor, comparisons, an opaque function CALL, ...)
+# can make a non-affine expression with a structurally zero Hessian: the test is blind to it, and only the list of allowed operations
+# keeps such an expression out of the affine rebuild.
+AFFINE_SAFE = {"OP_INPUT", "OP_OUTPUT", "OP_CONST", "OP_PARAMETER", "OP_ADD", "OP_SUB", "OP_MUL", "OP_DIV", "OP_NEG", "OP_TWICE", "OP_ASSIGN"}
+SMOOTH = {"OP_SQ", "OP_SIN", "OP_COS", "OP_TAN", "OP_ASIN", "OP_ACOS", "OP_ATAN", "OP_ATAN2", "OP_SINH", "OP_COSH", "OP_TANH", "OP_ASINH", "OP_ACOSH",
+          "OP_ATANH", "OP_EXP", "OP_LOG", "OP_SQRT", "OP_POW", "OP_CONSTPOW", "OP_INV", "OP_ERF", "OP_ERFINV", "OP_LOG1P", "OP_EXPM1", "OP_HYPOT"}
+
+
+# operations whose symbolic presence is reported in counterexamples (all operation codes are symbolic; these are named)
+REPORTED_OPS = {"OP_FABS", "OP_FMIN", "OP_FMAX", "OP_IF_ELSE_ZERO", "OP_SIGN", "OP_FLOOR", "OP_CEIL", "OP_CALL", "OP_LT", "OP_LE", "OP_NOT", "OP_FMOD"}
+
+
+def blind_ops():
+    from .casadi_facts import casadi_facts
+    return sorted(n for n in casadi_facts()["op_codes"] if n not in AFFINE_SAFE and n not in SMOOTH)
+
+
 class OpSet(Ext):
-    """{f.instruction_id(k) ...}: only issubset(allowed) is observed"""
+    """{f.instruction_id(k) ...} of the function built from one attribute block: which operations occur in it is symbolic (one
+    Boolean per operation code of the installed CasADi); issubset(allowed) is decided against the set the real code passes"""
 
     def __init__(self, fn):
         self.fn = fn
@@ -122,8 +142,11 @@ class OpSet(Ext):
     def sym_getattr(self, eng, name):
         if name == "issubset":
             def issubset(eng, allowed):
-                blk = self.fn.outs[0]
-                return z3.Not(eng.c13["unallowed"][id(blk)])
+                from .casadi_facts import casadi_facts
+                codes = casadi_facts()["op_codes"]
+                allowed_codes = set(int(x) for x in eng.iterate(allowed))
+                uses = eng.c13["uses"][id(self.fn.outs[0])]
+                return z3.And([z3.Not(uses[n]) for n, c in codes.items() if c not in allowed_codes] + [z3.BoolVal(True)])
             return stub(issubset)
         raise Unsupported("set.%s" % name)
 
@@ -163,8 +186,9 @@ def casadi(eng):
         "mtimes": stub(lambda eng, a, b: T("mtimes", (a, b))), "reshape": stub(lambda eng, e, shape: T("reshape", (e, shape))),
         "densify": stub(lambda eng, e: e if isinstance(e, DMVal) else T("densify", (e,))),
     })
-    for i, nme in enumerate(["OP_INPUT", "OP_OUTPUT", "OP_CONST", "OP_SUB", "OP_ADD", "OP_MUL", "OP_DIV", "OP_NEG"]):
-        mod.attrs[nme] = 100 + i
+    from .casadi_facts import casadi_facts
+    for nme, code in casadi_facts()["op_codes"].items():
+        mod.attrs[nme] = code
     return mod
 
 
@@ -183,7 +207,7 @@ def install(eng):
                             "collections": CollectionsStub(), "typing": typing})
     eng.call_contracts.clear()
     eng.loop_specs.clear()
-    eng.c13 = {"unallowed": {}}
+    eng.c13 = {"uses": {}}
 
 
 def h_defaults(eng):
@@ -473,7 +497,7 @@ def h_metadata_function(eng):
     expanded = []
     cls.attrs["_expand_mx_func"] = _record_method(expanded)
     cls.attrs["_symbols"] = _symbols_method
-    unallowed = eng.c13["unallowed"]
+    uses = eng.c13["uses"]
 
     # instruction sets: one symbolic "contains an operation outside the allowed list" per block
     def set_comp_hook():
@@ -487,8 +511,12 @@ def h_metadata_function(eng):
         ids = [x for x in r.items if isinstance(x, OpId)]
         if ids:
             blk = ids[0].fn.outs[0]
-            if id(blk) not in unallowed:
-                unallowed[id(blk)] = eng.input("block%d.contains_unallowed_ops" % len(unallowed), eng.fresh_bool("unallowed"))
+            if id(blk) not in uses:
+                from .casadi_facts import casadi_facts
+                k_ = len(uses)
+                blind = set(blind_ops())
+                uses[id(blk)] = {n: (eng.input("block%d.uses[%s]" % (k_, n), eng.fresh_bool("uses_%s" % n)) if n in blind and n in REPORTED_OPS else eng.fresh_bool("uses_%s" % n))
+                                 for n in casadi_facts()["op_codes"]}
             return OpSet(ids[0].fn)
         return r
     eng.ev_SetComp = ev_setcomp
@@ -536,7 +564,11 @@ def h_metadata_function(eng):
             leaves = [attrs_of[k] for k in attrs_of]
         all_affine = z3.And([t.facts["affine_all"] for t in attrs_of.values()]) if attrs_of else z3.BoolVal(True)
         eng.prove("meta.rebuild_only_if_affine_in_whole_parameter_vector", all_affine)
-        eng.prove("meta.rebuild_only_without_unallowed_operations", z3.Not(z3.Or(list(unallowed.values()))) if unallowed else True)
+        # (P) the affine rebuild evaluates J(0) p + f(0): that equals the attributes only if they ARE affine, and the zero-Hessian test
+        # vouches for that only in the absence of the operations it is blind to
+        blind = blind_ops()
+        eng.prove("meta.rebuild_only_without_operations_the_zero_hessian_test_is_blind_to",
+                  z3.Not(z3.Or([u[n] for u in uses.values() for n in blind] + [z3.BoolVal(False)])))
         eng.prove("meta.rebuild_only_with_parameters", z3.BoolVal(len(pnames) > 0))
         for o in fn.outs:
             eng.prove("meta.rebuild_is_jacobian_at_zero_times_p_plus_value_at_zero", z3.BoolVal(_is_affine_form(o)))
@@ -822,7 +854,7 @@ ASSUMPTIONS = [
 EXPLANATION = "Defaults, attribute copy/coercion, metadata matrix layout and the guard of the affine rebuild."
 MANIFEST = {
     "category": "proof",
-    "text": "Variable's defaults, the attribute copy and Python-type coercion of _ast_symbols_to_variables (every attribute x value kind x declared type) and variable_metadata_function are verified on the real source: the metadata matrices have one column per attribute and the variables' rows in order (scalars repeated to the variable's size), and the affine shortcut is taken only if every attribute block is affine in the WHOLE parameter vector (a symbolic fact strictly stronger than affine in each parameter) and free of unallowed operations, in which case each output is reshape(J(0) p) + f(0). variable_metadata_function is a property of the model's CURRENT state: read, change (list replaced / attribute rewritten / variable moved), read again gives the function of the current variables; _substitute_metadata gives every expression-valued attribute its own substituted value in the declared Python type. A bounded replay evaluates real models' metadata at random parameter values.",
+    "text": "Variable's defaults, the attribute copy and Python-type coercion of _ast_symbols_to_variables (every attribute x value kind x declared type) and variable_metadata_function are verified on the real source: the metadata matrices have one column per attribute and the variables' rows in order (scalars repeated to the variable's size), and the affine shortcut is taken only if every attribute block is affine in the WHOLE parameter vector (a symbolic fact strictly stronger than affine in each parameter) and free of every operation the structural zero-Hessian test is blind to (piecewise-linear operations, comparisons, opaque function calls: the list of allowed operations is judged against a classification of all operation codes of the installed CasADi), in which case each output is reshape(J(0) p) + f(0). variable_metadata_function is a property of the model's CURRENT state: read, change (list replaced / attribute rewritten / variable moved), read again gives the function of the current variables; _substitute_metadata gives every expression-valued attribute its own substituted value in the declared Python type. A bounded replay evaluates real models' metadata at random parameter values.",
     "note": "CasADi's algebra is assumed (affinity test via double Jacobian, layout, evaluation); shapes enumerated.",
     "technique": "contract-based deductive verification: symbolic execution with provenance-recording CasADi terms carrying ghost affinity facts, z3",
 }
